@@ -25,7 +25,7 @@ package literal
 //@   effect append#8 requires r < 128 && r >= 0
 //@   loop 0 invariant s <= 12 && s % 4 == 0
 //@   loop 1 invariant s <= 28 && s % 4 == 0
-//@   assigns heap
+//@   assigns allelems(byte)
 
 //@ func strings.ContainsAny
 //@   assumed A-ext strings.ContainsAny: pure
@@ -47,3 +47,14 @@ package literal
 //@   ensures [noearlyclose] result > 0 ==> forall k int :: 0 <= k && k < len(s) && (s[k] == f.quote || s[k] == '\\') ==> !hashRun(s, k + 1, result)
 //@   ensures [notriple] result > 0 ==> !(len(s) >= 2 && s[0] == f.quote && s[1] == f.quote)
 //@   assigns heap
+
+// (P) C07/C09: in the escaping loop the raw byte escape \xNN stands for exactly
+// one input byte: it may be chosen only for an element of width 1 (an invalid
+// UTF-8 byte), never for a well-formed multi-byte rune such as U+FFFD itself
+// (whose remaining bytes would be dropped). Every step consumes between 1 and
+// len(s) bytes, every index and slice is in range.
+//@ func (Form).appendEscaped
+//@   requires f.hashCount >= 0
+//@   loop 0 invariant 0 <= width && width <= 4
+//@   effect append#1 requires width == 1
+//@   assigns allelems(byte)
